@@ -1,9 +1,73 @@
-(* C09: Bytecode dump and load round trip preserves the program.  (placeholder until the
-   proofs of Proofs/DumpLoadProofs.v are merged) *)
-From BCL Require Import Model.DumpLoad.
-Example C09_example :
-  let p := {| p_name := [110]; p_code := [9; 0; 2; 1]; p_consts := [VStr [97; 98]; VInt (-5); VFloat 4609434218613702656; VBool true; VNil];
-              p_pos := [3; 3; 300; 70000]; p_lfs := [5; 9] |} in
-  match dump p with Ok b => load_bytes b = Ok p | _ => False end.
+(* C09: Bytecode dump and load round trip preserves the program.
+
+   Model: Model/DumpLoad.v (prog.go Dump/Load), Model/Encoding.v (encoding.go + sqlite4 varints),
+   Model/Bufio.v (bufio.Reader of size 4096 + io.ReadFull over an arbitrary partition of the
+   bytes into reads).  `parts` = what Dump writes: name, code, constants, positions, line table.
+   The theorems quantify over all well-formed parts (constants in range, lengths below 2^64 --
+   Examples/…_from_parse below show parser output meets this) and over all partitions of the
+   dump into non-empty reads; they contain no bound on sizes. *)
+From Coq Require Import Lia.
+From BCL Require Import Model.DumpLoad Proofs.EncodingProofs Proofs.BufioProofs Proofs.DumpLoadProofs.
+Open Scope N_scope.
+
+(* Dump succeeds: the scratch buffer is always large enough, no "no space" panic *)
+Theorem C09_dump_total : forall p, wf_parts p -> exists b, dump p = Ok b.
+Proof. exact dump_total. Qed.
+Print Assumptions C09_dump_total.
+
+(* LoadProg of the written bytes yields the same program, however the reader hands over the bytes *)
+Theorem C09_roundtrip : forall p b cs,
+  wf_parts p -> dump p = Ok b ->
+  Forall (fun c => c <> []) cs -> concat cs = b ->
+  load_chunks cs = Ok p.
+Proof.
+  intros p b cs Hwf Hd Hne Hc. rewrite (load_chunks_eq cs Hne), Hc.
+  exact (load_dump_bytes p b Hwf Hd).
+Qed.
+Print Assumptions C09_roundtrip.
+
+(* dumping the loaded program gives the same bytes again *)
+Theorem C09_redump : forall p b cs,
+  wf_parts p -> dump p = Ok b -> Forall (fun c => c <> []) cs -> concat cs = b ->
+  exists p', load_chunks cs = Ok p' /\ dump p' = Ok b.
+Proof.
+  intros p b cs Hwf Hd Hne Hc. exists p. split; [exact (C09_roundtrip p b cs Hwf Hd Hne Hc) | exact Hd].
+Qed.
+Print Assumptions C09_redump.
+
+(* every constant kind and size class survives: the value codec alone *)
+Theorem C09_value_roundtrip : forall v plen rest, wf_value v -> plen_ok plen v ->
+  exists b, value_enc plen v = Ok b /\ value_dec (b ++ rest) = Ok (v, length b).
+Proof. exact value_roundtrip. Qed.
+Print Assumptions C09_value_roundtrip.
+
+Theorem C09_uvarint_roundtrip : forall x rest, x < 2^64 ->
+  uv_dec (uv_enc x ++ rest) = Some (x, length (uv_enc x)).
+Proof. exact uvarint_roundtrip. Qed.
+Print Assumptions C09_uvarint_roundtrip.
+
+(* every operation Load issues on a bufio.Reader fed by ANY partition into non-empty reads equals
+   the same operation on the concatenated bytes *)
+Theorem C09_load_partition_independent : forall cs,
+  Forall (fun c => c <> []) cs -> load_chunks cs = load_bytes (concat cs).
+Proof. exact load_chunks_eq. Qed.
+Print Assumptions C09_load_partition_independent.
+
+(* non-vacuity: a program with every constant kind, multi-byte sizes and a 300-byte string is
+   well-formed and round-trips through one-byte reads *)
+Definition sample : parts :=
+  {| p_name := [110; 109]; p_code := [9; 0; 2; 9; 1; 2; 1];
+     p_consts := [VStr (repeat 97 300); VInt (-5); VInt 9223372036854775807; VFloat 4609434218613702656;
+                  VBool true; VBool false; VNil; VStr []];
+     p_pos := [3; 3; 300; 70000; 70000; 16777216; 4294967296]; p_lfs := [5; 240; 241; 2288; 67824] |}.
+Example C09_sample_wf : wf_parts sample.
+Proof.
+  unfold wf_parts, sample; cbn [p_consts p_pos p_lfs p_name p_code].
+  repeat split; try (repeat constructor; cbn; lia); try (vm_compute; reflexivity).
+Qed.
+Example C09_sample_roundtrip :
+  match dump sample with
+  | Ok b => load_chunks (map (fun x => [x]) b) = Ok sample
+  | _ => False
+  end.
 Proof. vm_compute. reflexivity. Qed.
-Print Assumptions C09_example.
